@@ -29,6 +29,18 @@ func init() {
 		Assumptions: []string{"every version has a state-root candidate derived from the previous finalized state root (as the consensus layer produces them)", "badger background goroutines (flush, compaction, GC) are real and unscheduled"},
 	})
 	reg(&core.Property{
+		ID: "C13", Level: "exploration",
+		Batches: []core.Batch{
+			{Name: "served", Engine: store.NodeDBEngine{Prop: "C13", CheckWL: true}, Quick: 4000, Thorough: 100000,
+				Rule: "a run is non-trivial when the history has at least four operations including a commit and a finalize (every commit's served write log is replayed on the first root, after the commit and again after finalization)"},
+			{Name: "apply", Engine: store.SyncEngine{}, Quick: 4000, Thorough: 100000,
+				Rule: "a run is non-trivial when at least one write log was applied and at least one served log was actually changed by a corruption operator"},
+		},
+		Real:        []string{"NodeDB.GetWriteLog of badger and pathbadger (hashed / path-keyed logs revived from the database)", "storage/database LocalBackend.Apply -> RootCache.Apply -> ApplyWriteLog + CommitKnown", "mkvs tree commit write-log construction"},
+		Stub:        []string{"the serving peer and the transport: the harness fetches the log from the source database and corrupts it with seeded operators before handing it to Apply"},
+		Assumptions: []string{"the receiver applies versions in order, one state root per version derived from the previous one and at most one I/O root derived from empty"},
+	})
+	reg(&core.Property{
 		ID: "C04", Level: "exploration",
 		Batches: []core.Batch{
 			{Name: "byzantine", Engine: store.ProofEngine{}, Quick: 60000, Thorough: 2000000,
